@@ -258,6 +258,26 @@ def input_check(case, ctx):
     return res
 
 
+def inits_check(case, ctx):
+    """Static objects with generated initialisers (C07's generator): valid module, data size and alignment as clang's."""
+    from . import c07
+    res = Result()
+    src = c07.static_source(case).encode()
+    for t in cproc.TARGETS:
+        p = cproc.cc(ctx, src, t, "plain", timeout=60)
+        res.n += 1
+        if p.timeout or p.rc != 0:
+            res.discard.append("rejected-or-timeout")
+            continue
+        check_il(ctx, p, res, "inits/%s" % t, src, t, with_clang=True)
+        if res.fail is not None:
+            res.fail["input"] = src.decode("latin-1")
+            break
+    res.labels.extend("g:" + l for l in case["labels"])
+    res.sample = {"source": "inits", "objs": ["%s%s = %s;" % (o["storage"], o["decl"], o["init"]) for o in case["objs"]][:2]}
+    return res
+
+
 def gen_sources(ctx):
     try:
         from . import c01
@@ -272,4 +292,5 @@ def sources(ctx):
         Source("files", files_check, enum=files_enum),
         Source("fsize", fsize_check, enum=fsize_enum),
         Source("mutant", mutant_check, strategy=mutant_strategy, examples={"quick": 12000, "thorough": 300000}),
+        Source("inits", inits_check, strategy=lambda c: __import__("vlib.gen.initgen", fromlist=["x"]).init_cases(), examples={"quick": 500, "thorough": 20000}),
     ] + gen_sources(ctx)
